@@ -25,7 +25,7 @@ theorem sBox_eq (aL aH bL bH : BitVec 64) : Gen.Curl.sBox aL aH bL bH = Curl.sBo
 
 /-- (the functions `bool2int`, `sBox`, `Curl.in`, `Curl.out`, `Curl.Reset`, `Curl.CopyState`, `transformGeneric`, `Curl.Absorb` and
 `Curl.Squeeze` are
-translated as code, `Gen.Curl.code.*`, and tied to the model for all inputs in `Iota/Tie/CurlCode.lean`; their text is
+translated as code, `Gen.Curl.code.*`, and tied to the model for all inputs in `Iota/Tie/CurlCodeLanes.lean`, `CurlCodePerm.lean`, `CurlCodeSponge.lean`; their text is
 not pinned) -/
 
 theorem bool2int_eq (b : Bool) : Gen.Curl.bool2int b = Curl.bool2int b := by
@@ -64,8 +64,8 @@ theorem code_bool2int (b : Bool) : Gen.Curl.code.bool2int b = Curl.bool2int b :=
 theorem code_sBox (aL aH bL bH : BitVec 64) : Gen.Curl.code.sBox aL aH bL bH = Curl.sBox aL aH bL bH :=
   CurlCodeLanes.sBox_eq aL aH bL bH
 
-/-- `c.in(src, idx)`: panics exactly when `src` has fewer than 243 trits; otherwise the two planes are the model's
-`inLane` for lane `idx mod 64` -/
+/-- `c.in(src, idx)`: panics exactly when `src` has fewer than 243 trits (capacity is not modelled: cap = len; Go would
+extend `src[:243]` into spare capacity); otherwise the two planes are the model's `inLane` for lane `idx mod 64` -/
 theorem code_in (l h : Curl.Plane) (src : List (BitVec 8)) (idx : BitVec 64) :
     Gen.Curl.code.Curl_in l.toList h.toList src idx =
       if 243 ≤ src.length then
@@ -73,7 +73,7 @@ theorem code_in (l h : Curl.Plane) (src : List (BitVec 8)) (idx : BitVec 64) :
               (Curl.inLane l h (src.map (·.toInt)) (idx.toNat % 64)).2.toList)
       else none := CurlCodeLanes.in_eq l h src idx
 
-/-- `c.out(dst, idx)`: panics exactly when `dst` has fewer than 243 entries; otherwise its first 243 entries become the
+/-- `c.out(dst, idx)`: panics exactly when `dst` has fewer than 243 entries (cap = len, as above); otherwise its first 243 entries become the
 model's `outLane` of lane `idx mod 64` (values in {-1,0,1}) and the rest of `dst` is untouched -/
 theorem code_out (c : Curl.Curl) (dst : List (BitVec 8)) (idx : BitVec 64) :
     (Gen.Curl.code.Curl_out c.l.toList c.h.toList dst idx =
@@ -116,14 +116,17 @@ first parameter of the translated methods, instantiated here by `trM` = the mode
 lists.  `dirBV` encodes the direction (absorbing ↦ 0, squeezing ↦ 1), `tritsI` reads int8 trits as integers, `encA` /
 `encS` encode the model's outcome (error ↦ the error name with the state — and `dst` — unchanged, panic ↦ `none`). -/
 open Iota.Tie.CurlCodeSponge in
-/-- `Absorb`, every state, every batch (also of wrong size, with short lanes, in the wrong direction), every
-`tritsCount ≥ 0`: same error, same panic condition, same resulting planes as the model -/
+/-- `Absorb`, every state, every batch of fewer than 2^63 lanes (also of wrong size, with short lanes, in the wrong
+direction), every `tritsCount ≥ 0`: same error, same panic condition (with cap = len for the lanes), same resulting planes
+as the model -/
 theorem code_absorb (c : Curl.Curl) (src : List (List (BitVec 8))) (hsrc : src.length < 2 ^ 63) (tc : BitVec 64)
     (h0 : 0 ≤ tc.toInt) :
     Gen.Curl.code.Curl_Absorb trM c.l.toList c.h.toList (dirBV c.direction) src tc =
       encA c (Curl.Curl.absorb c (src.map tritsI) tc.toNat) := absorb_eq c src hsrc tc h0
 open Iota.Tie.CurlCodeSponge in
-/-- `Squeeze` likewise: planes, direction and the rows written (the trits of `outLane`, as int8) -/
+/-- `Squeeze` likewise (`tritsCount ≥ 0`, fewer than 2^63 rows): planes, direction and the rows written (the trits of
+`outLane`, as int8).  Not modelled: Go's allocation limit — for an enormous `tritsCount` Go's `make` panics with "len out
+of range" where the translation builds the rows. -/
 theorem code_squeeze (c : Curl.Curl) (dst : List (List (BitVec 8))) (hdst : dst.length < 2 ^ 63) (tc : BitVec 64)
     (h0 : 0 ≤ tc.toInt) :
     (Gen.Curl.code.Curl_Squeeze trM c.l.toList c.h.toList (dirBV c.direction) dst tc =
@@ -151,5 +154,24 @@ theorem code_sponge_negative (tr : TR) (c_l c_h : List (BitVec 64)) (d : BitVec 
     (Gen.Curl.code.Curl_Squeeze tr c_l c_h d rows tc =
       if tc.toInt.tmod 243 ≠ 0 then some (some "consts.ErrInvalidSqueezeLength", c_l, c_h, d, rows) else none) :=
   ⟨absorb_neg tr c_l c_h d rows h1 h64 tc hneg, squeeze_neg tr c_l c_h d rows h1 h64 tc hneg⟩
+
+open Iota.Tie.CurlCodeSponge in
+/-- the parameter `trM` by which `Absorb` / `Squeeze` are instantiated is what the portable build's `c.transform()` computes
+with the GENERATED permutation (two zeroed scratch planes as `to`, the state as `from`, the state becomes the scratch
+planes — the text of that five-line wrapper is pinned, `src`): so for the portable build the whole sponge is generated
+code; for the amd64 build C20 replaces `transformGeneric` by the assembly. -/
+theorem code_transform_wrapper (c : Curl.Curl) :
+    trM c.l.toList c.h.toList =
+      (Gen.Curl.code.transformGeneric (List.replicate 729 0#64) (List.replicate 729 0#64) c.l.toList c.h.toList).map
+        (fun r => (r.1, r.2.1)) := by
+  rw [trM_eq]
+  have h := CurlCodePerm.transformGeneric_eq
+    { lto := Vector.replicate 729 0, hto := Vector.replicate 729 0, lfrom := c.l, hfrom := c.h }
+  simp only [Vector.toList_replicate] at h
+  rw [show (List.replicate 729 (0#64 : BitVec 64)) = List.replicate 729 (0 : BitVec 64) from rfl, h]
+  unfold Curl.Curl.transform
+  dsimp only
+  generalize Curl.transformGeneric _ = x
+  cases x <;> rfl
 
 end Iota.Tie.Curl
